@@ -567,6 +567,9 @@ def call_guard(ctx, f, call, LF):
                     extended = True
                 if isinstance(n, ast.Assign) and isinstance(n.value, ast.BinOp) and isinstance(n.value.op, (ast.Add, ast.BitOr)) and cname in {access_path(x) for x in ast.walk(n.value) if isinstance(x, (ast.Name, ast.Attribute))}:
                     extended = True
+                # a new collection spelled as a display: (*path, key) / [*path, key] / {*seen, key}
+                if isinstance(n, ast.Assign) and isinstance(n.value, (ast.Tuple, ast.List, ast.Set)) and len(n.value.elts) >= 2 and any(isinstance(e_, ast.Starred) and access_path(e_.value) == cname for e_ in n.value.elts):
+                    extended = True
             passed = any(root in {x.id for x in ast.walk(a) if isinstance(x, ast.Name)} for a in list(call.args) + [kw.value for kw in call.keywords])
             derived = set()
             for n in ctx.m.walk_own(f.node):
